@@ -72,6 +72,8 @@ let () =
   reg "at_mac" (function [e; key] ->
       guard_setter (fun () ->
         res_sx (fun (mac, e') -> [sx_hex mac; sx_of_eap e']) (calc_at_mac sha256 (eap_of_sx e) (hex_atom key))) | _ -> failwith "args");
+  (* the RFC definition over the octets (Spec/AkaMac.v) *)
+  reg "spec_at_mac" (function [w; key] -> L [sx_hex (zero_mac (hex_atom w)); sx_hex (at_mac_spec sha256 (hex_atom key) (hex_atom w))] | _ -> failwith "args");
   (* builders: (build <container payloads> (<builder> args...)) -> resulting container *)
   reg "new_message" (function [ispi; rspi; ex; resp; init; mid; L ps] ->
       let m = new_message (be8 ispi) (be8 rspi) (n_atom ex) (bool_of resp) (bool_of init) (n_atom mid) (List.map payload_of_sx ps) in
